@@ -28,16 +28,29 @@ pub const BUF: usize = 8;
 pub const MAX_COUNT: u32 = 4;
 
 fn run(check_post: bool) {
+    run_pinned(check_post, None)
+}
+
+/// `pin = Some(c)`: the symbolic input pinned to the canonical buffer [version 3, k 0, count c, 0, 0]
+/// of full length (counterexample extraction when Kani's concrete playback gives no test for the
+/// failing assertion; see h_arch.rs).
+fn run_pinned(check_post: bool, pin: Option<u8>) {
     let buf: [u8; BUF] = any();
     let len: usize = any();
     assume(len <= BUF);
+    if let Some(c) = pin {
+        assume(len == BUF && buf[0] == 3 && buf[1] == 0 && buf[2] == c);
+        assume(buf[3] == 0 && buf[4] == 0 && buf[5] == 0 && buf[6] == 0 && buf[7] == 0);
+    }
     assume(u32::from_le_bytes([buf[2], buf[3], buf[4], buf[5]]) <= MAX_COUNT);
     let cs = make_cs();
     let mut rd: &[u8] = &buf[..len];
     let r = VerifyingKey::<ToyF, KCS>::read_from_cs(&mut rd, SerdeFormat::RawBytes, cs);
     match r {
         Ok(vk) => {
-            crate::vcover!(true, "read_from_cs returns Ok");
+            if pin.is_none() {
+                crate::vcover!(true, "read_from_cs returns Ok");
+            }
             if check_post {
                 // Index expressions of the verifier that this key feeds:
                 //  proofs/src/plonk/verifier.rs  `&vk.fixed_commitments[column.index()]` for every
@@ -51,7 +64,9 @@ fn run(check_post: bool) {
             core::mem::forget(vk);
         }
         Err(e) => {
-            crate::vcover!(true, "read_from_cs returns Err");
+            if pin.is_none() {
+                crate::vcover!(true, "read_from_cs returns Err");
+            }
             core::mem::forget(e);
         }
     }
@@ -78,3 +93,19 @@ pub fn vk_read_total() {
 pub fn vk_read_postcondition() {
     run(true)
 }
+
+macro_rules! vk_post_pin {
+    ($name:ident, $c:expr) => {
+        #[cfg_attr(kani, kani::proof)]
+        #[cfg_attr(kani, kani::unwind(7))]
+        #[cfg_attr(kani, kani::stub(std::fmt::format, crate::stubs::format_stub))]
+        #[cfg_attr(kani, kani::stub(std::hash::RandomState::new, crate::stubs::random_state_new_stub))]
+        #[cfg_attr(kani, kani::stub(midnight_proofs::poly::EvaluationDomain::new, crate::stubs::domain_new_stub))]
+        #[cfg_attr(kani, kani::stub(midnight_proofs::plonk::VerifyingKey::from_parts, crate::stubs::from_parts_stub))]
+        pub fn $name() {
+            run_pinned(true, Some($c))
+        }
+    };
+}
+vk_post_pin!(vk_read_postcondition_pin_0, 0);
+vk_post_pin!(vk_read_postcondition_pin_1, 1);
